@@ -136,6 +136,39 @@ def relocated(text):
     return ren
 
 
+def unwrap_anonymous_consts(text):
+    """`a::b::_::<impl Tr for Ty>::f` -> `<Ty as Tr>::f` and `a::b::_::X` -> `a::b::X` in the text of a fact base"""
+    if "::_::" not in text:
+        return text
+    g = r"[^<>\"]*(?:<[^<>\"]*(?:<[^<>\"]*>[^<>\"]*)*>)?"
+    text = re.sub(r"(?:[A-Za-z_][A-Za-z0-9_]*::)+_::<impl (%s) for (%s)>::" % (g, g), lambda m: "<%s as %s>::" % (m.group(2), m.group(1)), text)
+    return re.sub(r"((?:[A-Za-z_][A-Za-z0-9_]*::)+)_::", r"\1", text)
+
+
+ENTRY_POINTS = ("microscpi::interface::Interface::process", "microscpi::interface::Interface::run", "microscpi::interface::Interface::execute")
+
+
+def delegations(facts):
+    """{entry point: sibling method} where the entry point's body is nothing but one (awaited) call of another method of
+    the same trait on `self`"""
+    import hir
+    out = {}
+    for b in facts.get("bodies", []):
+        d = b.get("def")
+        if d not in ENTRY_POINTS:
+            continue
+        kinds = [x.get("k") for x in hir.walk(b["value"])]
+        if any(k not in ("Closure", "Block", "Path", "Await", "MethodCall", "Call", "AddrOf", "Lit") for k in kinds):
+            continue
+        calls = [x for x in hir.walk(b["value"]) if x.get("k") in ("MethodCall", "Call")]
+        if len(calls) != 1:
+            continue
+        c = _base(calls[0].get("callee") or "")
+        if c.startswith("microscpi::interface::Interface::") and c != d and c not in ENTRY_POINTS:
+            out[d] = c
+    return out
+
+
 def canonicalise(facts):
     """Rewrite the fact base so that every located role carries its canonical path. -> (facts, {role: actual}) ; the
     facts are returned unchanged when nothing has to be renamed."""
@@ -150,11 +183,17 @@ def canonicalise(facts):
             continue        # the canonical path is taken by another function: leave everything as it is
         ren[actual] = canon
     text = json.dumps(facts)
+    # an entry point of the public interface that only hands its arguments to a sibling method (`process::<N, A>` =
+    # `process_with_capacity::<N, N, A>`): the sibling's body is the entry point's behaviour and is analysed as such
+    for (entry, worker) in delegations(facts).items():
+        text = re.sub(re.escape(entry) + r"(?![A-Za-z0-9_])", entry + "__entry", text)
+        text = re.sub(re.escape(worker) + r"(?![A-Za-z0-9_])", entry, text)
+        roles["(delegates) " + entry.split("::")[-1]] = worker
     moved = relocated(text)
     for a, c in moved.items():
         ren[a] = c
         roles["(public) " + c.split("::")[-1]] = a
-    if not ren:
+    if not ren and not any(r.startswith("(delegates)") for r in roles):
         return facts, roles
     # longest first, so that a path that extends another is replaced first
     for actual in sorted(ren, key=len, reverse=True):
